@@ -405,7 +405,7 @@ Qed.
 
 Theorem parse_static_order_free inherit ms : parse_static_sh sh pf di inherit ms = parse_static pf di inherit ms.
 Proof.
-  unfold parse_static_sh, parse_static, parse_static_gen.
+  unfold parse_static_sh, parse_static, parse_static_gen, parse_tables_gen.
   destruct (open_file "agency.txt" _ ms); try reflexivity. destruct (parse_agencies hdr rows) as [agencies warns].
   destruct (open_file "routes.txt" _ ms); try reflexivity.
   destruct (open_file "stops.txt" _ ms); try reflexivity.
